@@ -21,7 +21,7 @@ KINDS = ['null', 'identity', 'diagonal', 'kronecker', 'kronecker', 'kronecker', 
          'solver', 'solver', 'kronsolver', 'fastdiag', 'tprod', 'tprod', 'modek', 'applykron', 'csrslice']
 
 def cases(tier, seed):
-    n = {'quick': 4000, 'thorough': 80000}[tier]
+    n = {'quick': 4000, 'thorough': 500000}[tier]
     for i in range(n):
         yield {'kind': KINDS[i % len(KINDS)], 'seed': seed, 'idx': i}
 
